@@ -100,7 +100,7 @@ def gen_httpapi():
         "watched": lambda h: ["fs.1.90", h, "psucc.1.0", "tick.1", "gone.90", "tick.2", "adv.6000", "tick.3", "tick.4", "fs.1.91", "tick.5", "pfail.1.0", "tick.6"],
     }
     one = [hp(t=v) for v in ("a", "z", "0", "7000", "30000", "q")] + [hp(r=v) for v in ("z", "0", "n1", "1", "2", "q")] + \
-          [hp(a=v) for v in ("z", "0", "n1", "1", "5000", "q")] + [hp(m=v) for v in ("z", "0", "1", "q")]
+          [hp(a=v) for v in ("z", "0", "n1", "2000", "5000", "q")]  # no value near the real time a step takes (1 ms would race the wall clock) + [hp(m=v) for v in ("z", "0", "1", "q")]
     for h in one:
         for tk, tail in tails.items():
             yield Case(line(tail(h)), cls="httpapi-pull-one-" + tk)
